@@ -136,17 +136,21 @@ Fixpoint camel2 (s : str) : str :=
   | _ => s
   end.
 
-Fixpoint collapse_us (s : str) : str :=   (* re.sub(r"_+", "_", s) *)
+(* re.sub(r"_+", "_", s).strip("_") as one scan: runs of underscores become one "_" between two other
+   characters and disappear at both ends.  [started] = a non-underscore character has been emitted,
+   [pending] = underscores were seen since then. *)
+Fixpoint norm_go (started pending : bool) (s : str) : str :=
   match s with
-  | a :: ((b :: _) as r) => if is_us a && is_us b then collapse_us r else a :: collapse_us r
-  | _ => s
+  | [] => []
+  | c :: r => if is_us c then norm_go started started r
+              else (if pending then [95] else []) ++ c :: norm_go true false r
   end.
+Definition norm_us (s : str) : str := norm_go false false s.
 
-Definition method_core (s : str) : str :=
-  let s1 := filter (fun c => negb (is_brace c)) s in
-  let s2 := camel2 (camel1 s1) in
-  let s3 := map (fun c => if is_ident_char c then c else 95) s2 in
-  map lower_ascii (strip_us (collapse_us s3)).
+Definition method_s3 (s : str) : str :=
+  map (fun c => if is_ident_char c then c else 95)
+      (camel2 (camel1 (filter (fun c => negb (is_brace c)) s))).
+Definition method_core (s : str) : str := map lower_ascii (norm_us (method_s3 s)).
 
 Definition finish_snake (m : str) : str :=
   let m1 := if starts_digit m then 95 :: m else m in
